@@ -56,7 +56,7 @@ fn main() {
         match wl.as_str() {
             // upper-layer workloads observe the API; chmux hook events would only bloat their traces
             "rwlock" => install_hook_sink_for(&["rw_"]),
-            "robs_script" => {}
+            "robs_script" | "bcast" | "watch" => {}
             _ => install_hook_sink(),
         }
         match wl.as_str() {
@@ -127,6 +127,12 @@ fn main() {
             }
             "block" => {
                 rt.block_on(chmux_block::scenario(s));
+            }
+            "bcast" => {
+                rt.block_on(bcast_watch::broadcast_scenario(s, get("remote", 1) != 0, get("cut", 0) != 0));
+            }
+            "watch" => {
+                rt.block_on(bcast_watch::watch_scenario(s, get("hops", 1), get("cut", 0) != 0));
             }
             "rwlock" => {
                 let o = rwlock::RwOpts { remote: get("remote", 1) != 0, cancel: get("cancel", 1) != 0, cut: get("cut", 0) != 0, defer: get("defer", 1) };
